@@ -65,15 +65,8 @@ structure AddConnPre (g : Geo) (c0 c1 : Nat) : Prop where
   side : ∃ a b, g.connectionNodes c0 c1 = some (a, b) ∧ a ≠ b ∧
     isSide (g.col c0).nodes a b = true ∧ isSide (g.col c1).nodes a b = true
 
-/-- the same, decidably -/
-def addConnPreB (g : Geo) (c0 c1 : Nat) : Bool :=
-  g.columnlist.contains c0 && g.columnlist.contains c1 && c0 != c1 && !g.joined c0 c1 &&
-    (match g.connectionNodes c0 c1 with
-     | some (a, b) => a != b && isSide (g.col c0).nodes a b && isSide (g.col c1).nodes a b
-     | none => false)
-
-theorem AddConnPre.of_bool {g : Geo} {c0 c1 : Nat} (h : addConnPreB g c0 c1 = true) : AddConnPre g c0 c1 := by
-  simp only [addConnPreB, Bool.and_eq_true, List.contains_eq_mem, decide_eq_true_eq, bne_iff_ne, ne_eq,
+theorem AddConnPre.of_bool {g : Geo} {c0 c1 : Nat} (h : g.addConnPreB c0 c1 = true) : AddConnPre g c0 c1 := by
+  simp only [Geo.addConnPreB, Bool.and_eq_true, List.contains_eq_mem, decide_eq_true_eq, bne_iff_ne, ne_eq,
     Bool.not_eq_true'] at h
   obtain ⟨⟨⟨⟨m0, m1⟩, ne⟩, nj⟩, hs⟩ := h
   refine ⟨m0, m1, ne, nj, ?_⟩
